@@ -260,7 +260,8 @@ def make_recipe(ctx, k):
 def run(ctx) -> None:
     items: list = []
     for k in range(ctx.budget(25, 200)):
-        examine(ctx, make_recipe(ctx, k), items)
+        recipe = make_recipe(ctx, k)
+        ctx.guarded(lambda: examine(ctx, recipe, items), {'recipe': recipe})
     if ctx.searching and ctx.driver is None:
         ctx.evaluated(len(items))
         return
